@@ -149,6 +149,8 @@ func c18One(c *Ctx, input, class string) error {
 		var obs string
 		if head[0] == "wr" {
 			obs = c18RunWr(head, toks[1:], st)
+		} else if c.Only == "" && c18WaNeedsChild(toks[1:]) {
+			obs = c18RunWaChild(c, input)
 		} else {
 			obs = c18RunWa(head, toks[1:], st)
 		}
